@@ -93,7 +93,9 @@ def install(E):
                 out += cchars(E, st, A[ai]); ai += 1
             elif conv == 'x' and spec == b'02' and not is_sym(A[ai]):
                 out += list(b'%02x' % (A[ai] & 0xffffffff)); ai += 1
-            else: raise Unsupported('snprintf format %r' % fmt)
+            else:
+                if hasattr(E, 'fmt'): out = E.fmt(E, st, A[2], A, 3); break
+                raise Unsupported('snprintf format %r' % fmt)
             i = j + 1
         w = out[:max(n - 1, 0)]
         for k, ch in enumerate(w): E.store(st, buf + k, 1, ch)
